@@ -433,7 +433,9 @@ static ogg_int64_t _initial_pcmoffset(OggVorbis_File *vf, vorbis_info *vi){
 
   while(1){
     ogg_packet op;
-    if(_get_next_page(vf,&og,-1)<0)
+    ogg_int64_t llret=_get_next_page(vf,&og,-1);
+    if(llret==OV_EREAD)return(OV_EREAD);
+    if(llret<0)
       break; /* should not be possible unless the file is truncated/mangled */
 
     if(ogg_page_bos(&og)) break;
@@ -506,6 +508,7 @@ static int _bisect_forward_serialno(OggVorbis_File *vf,
     while(endserial != serialno){
       endserial = serialno;
       searched=_get_prev_page_serial(vf,searched,currentno_list,currentnos,&endserial,&endgran);
+      if(searched<0)return((int)searched);
     }
 
     vf->links=m+1;
@@ -566,6 +569,7 @@ static int _bisect_forward_serialno(OggVorbis_File *vf,
     while(testserial != serialno){
       testserial = serialno;
       searched = _get_prev_page_serial(vf,searched,currentno_list,currentnos,&testserial,&searchgran);
+      if(searched<0)return((int)searched);
     }
 
     ret=_seek_helper(vf,next);
@@ -579,10 +583,19 @@ static int _bisect_forward_serialno(OggVorbis_File *vf,
     /* this will consume a page, however the next bisection always
        starts with a raw seek */
     pcmoffset = _initial_pcmoffset(vf,&vi);
-
-    ret=_bisect_forward_serialno(vf,next,vf->offset,end,endgran,endserial,
-                                 next_serialno_list,next_serialnos,m+1);
-    if(ret)return(ret);
+    if(pcmoffset<0){
+      ret=(int)pcmoffset;
+    }else{
+      ret=_bisect_forward_serialno(vf,next,vf->offset,end,endgran,endserial,
+                                   next_serialno_list,next_serialnos,m+1);
+    }
+    if(ret){
+      /* nothing below took ownership of these yet */
+      vorbis_info_clear(&vi);
+      vorbis_comment_clear(&vc);
+      if(next_serialno_list)_ogg_free(next_serialno_list);
+      return(ret);
+    }
 
     if(next_serialno_list)_ogg_free(next_serialno_list);
 
@@ -628,10 +641,11 @@ static int _open_seekable2(OggVorbis_File *vf){
 
   /* fetch initial PCM offset */
   ogg_int64_t pcmoffset = _initial_pcmoffset(vf,vf->vi);
+  if(pcmoffset<0)return((int)pcmoffset);
 
   /* we can seek, so set out learning all about this file */
   if(vf->callbacks.seek_func && vf->callbacks.tell_func){
-    (vf->callbacks.seek_func)(vf->datasource,0,SEEK_END);
+    if((vf->callbacks.seek_func)(vf->datasource,0,SEEK_END)==-1)return(OV_EREAD);
     vf->offset=vf->end=(vf->callbacks.tell_func)(vf->datasource);
   }else{
     vf->offset=vf->end=-1;
